@@ -79,7 +79,12 @@ class CallMixin:
             if isinstance(r, staticmethod) and isinstance(r.__func__, types.FunctionType):
                 return r.__func__
             if isinstance(v, types.ModuleType) or not isinstance(r, (types.FunctionType, property)):
-                return getattr(v, name)
+                val = getattr(v, name)
+                if self.env.object_models:
+                    sch = self.env.object_models.get(id(val))
+                    if sch is not None:
+                        return self.global_object(sch)
+                return val
             return r
         if isinstance(v, types.SimpleNamespace):
             return getattr(v, name)
@@ -292,6 +297,10 @@ class CallMixin:
                 if h is not None:
                     return h(self, v)
             raise Unsupported('str() of %r' % v)
+        if isinstance(v, SOpt):
+            if self.choose(v.isnone):
+                return 'None'
+            return self.to_str(v.val)
         if isinstance(v, SRef):
             m = self.env.model_for(v.cls, '__str__')
             if m is not None:
